@@ -8,6 +8,7 @@ history matters) and compare every observation with what the run returned / was 
 from __future__ import annotations
 
 import contextlib
+import copy
 import io
 import json
 import os
@@ -24,7 +25,7 @@ ID = "C04"
 LEVEL = "exploration"
 TECHNIQUE = "bounded-exhaustive enumeration of MapSpec pipelines x persisting storages x load histories, observed in the writing interpreter and in a fresh interpreter started after the writer (and its managers) exited"
 RULE = ("G-MAP pipelines (all 1-function pipelines with one, two or three outputs; 2-function pipelines with a single-output first function whose second function consumes only `a`; thorough: every 2-function pipeline whose second function consumes `a` alone or `a` and its sibling `b`) x storage "
-        "{file_array, dict+persist, shared_memory_dict+persist, per-output mix} (+ for the one-output 1-function pipelines: a run with cleanup=False into a folder that holds stale input files of an attempt that died before run_info.json existed) x load history = a de Bruijn sequence over {load_outputs(all), RunInfo.load, load_xarray_dataset} "
+        "{file_array, dict+persist, shared_memory_dict+persist, per-output mix} (+ for the one-output 1-function pipelines: a run with cleanup=False into a folder that holds stale input files of an attempt that died before run_info.json existed; and, with file_array and dict storage, a run into a folder that holds a COMPLETE earlier run on larger inputs which the writing process has already loaded through all three entry points) x load history = a de Bruijn sequence over {load_outputs(all), RunInfo.load, load_xarray_dataset} "
         "in which every entry point follows every other one (quick: ORXO in the writer and again in the fresh interpreter; thorough: a de Bruijn sequence with every ordered pair), executed first in the writing process and then again in a fresh interpreter. "
         "non-trivial = distinct (pipeline shape, storage assignment) with a mapped axis, observed in the fresh interpreter")
 ASSUMPTIONS = ["the fresh interpreter is a child process started after the writer process has exited (all manager processes of the run are gone)",
@@ -158,6 +159,20 @@ def writer_main(jobfile):
                 for n_ in inputs:
                     _dump(["stale", n_], pathlib.Path(folder) / "inputs" / f"{n_}.cloudpickle")
                 extra_kw["cleanup"] = False
+            if case.get("prior") == "earlier-run-loaded":
+                # the folder already holds a COMPLETE earlier run of the same pipeline on other (larger) inputs, and this very
+                # process has loaded it through every entry point; the run under test then replaces it (cleanup=True, the
+                # default): what is loaded afterwards - here and in the fresh interpreter - must be the new run
+                spec0 = copy.deepcopy(spec)
+                spec0["sizes"] = {a: n_ + 1 for a, n_ in spec["sizes"].items()}
+                p0 = gen_map.build(spec0)
+                with contextlib.redirect_stdout(io.StringIO()), warnings.catch_warnings():
+                    warnings.simplefilter("ignore")
+                    p0.map(gen_map.make_inputs(spec0, "list"), run_folder=folder, internal_shapes=gen_map.internal_shapes_arg(spec0),
+                           parallel=False, storage=storage_arg(case["storage"]), persist_memory=True)
+                names0 = [o for f in spec["funcs"] for o in f["outs"]]
+                for step in "ORX":
+                    observe(step, folder, names0)
             created = {}
             orig = RunInfo.create.__func__
 
@@ -311,6 +326,10 @@ def run_unit(unit):
         if len(spec["funcs"]) == 1 and len(spec["funcs"][0]["outs"]) == 1:
             cases.append({"spec": spec, "storage": "file_array", "prior": "stale-inputs"})
             keys.append((gen_map.key(spec), "stale-inputs") if gen_map.nontrivial(spec) else None)
+        if len(spec["funcs"]) == 1 and len(spec["funcs"][0]["outs"]) == 1:
+            for st in ("file_array", "dict"):
+                cases.append({"spec": spec, "storage": st, "prior": "earlier-run-loaded"})
+                keys.append((gen_map.key(spec), "earlier-run-loaded", st) if gen_map.nontrivial(spec) else None)
         if len(spec["funcs"]) == 1 and len(spec["roots"]) >= 2:
             # scoped names ("s.x", "s.y"): inputs and outputs whose file names contain a dot
             cases.append({"spec": spec, "storage": "file_array", "scope": "s"})
